@@ -14,24 +14,33 @@ pub(crate) fn negate_in_place(ring: &ConstLargeDivisor, raw: &mut ReducedLarge)
     /*@ proof {
         lemma_valn_bound(raw.0@, raw.0@.len() as int);
         lemma_valn_bound(ring.normalized_divisor@, ring.normalized_divisor@.len() as int);
-    } @*/
-    if !raw.0.iter().all(|w| *w == 0) {
-        /*@ proof {
+        // Both outcomes of the zero test below are prepared HERE, on the initial value: no annotation is anchored on the
+        // `if`, its closing brace or behind it, so the special case may be changed or removed without breaking the
+        // transplant (a removed special case then fails `red_valid(final(raw))`: -0 would be stored as M).
+        if exists|k: int| 0 <= k < raw.0@.len() && raw.0@[k] != 0 {
             let k = choose|k: int| 0 <= k < raw.0@.len() && raw.0@[k] != 0;
             lemma_valn_pos(raw.0@, k, raw.0@.len() as int);
-        } @*/
+        } else {
+            // zero stays zero: raw is not touched
+            lemma_valn_zero(raw.0@, 0, raw.0@.len() as int);
+            if ring_al(ring) && red_ok(old(raw), ring) {
+                lemma_pow2_pos(ring.shift as int);
+                lemma_neg_div(val(old(raw).0@), ring_p(ring));
+                lemma_mod1_resid(val(raw.0@), -val(old(raw).0@), ring_M(ring), ring_p(ring));
+            }
+        }
+    } @*/
+    if !raw.0.iter().all(|w| *w == 0) {
         let overflow = add::sub_same_len_in_place_swap(&ring.normalized_divisor, &mut raw.0);
         /*@ proof {
             lemma_valn_bound(raw.0@, raw.0@.len() as int);
             lemma_b2i_mul(overflow, pw(ring.normalized_divisor@.len() as int));
+            if ring_al(ring) && red_ok(old(raw), ring) && val(old(raw).0@) >= 1 {
+                lemma_pow2_pos(ring.shift as int);
+                lemma_neg_div(val(old(raw).0@), ring_p(ring));
+                lemma_mod1_resid(val(raw.0@), -val(old(raw).0@), ring_M(ring), ring_p(ring));
+            }
         } @*/
         debug_assert!(!overflow);
-    } /*@ else { proof { lemma_valn_zero(raw.0@, 0, raw.0@.len() as int); } } @*/
-    /*@ proof {
-        if ring_al(ring) && red_ok(old(raw), ring) {
-            lemma_pow2_pos(ring.shift as int);
-            lemma_neg_div(val(old(raw).0@), ring_p(ring));
-            lemma_mod1_resid(val(raw.0@), -val(old(raw).0@), ring_M(ring), ring_p(ring));
-        }
-    } @*/
+    }
 }
